@@ -37,6 +37,7 @@ def run(rep: core.Report):
     rep.rule("R08d", "Gonze-Lee method: the G + q = 0 term along a direction n is n_a n_b / (n.eps.n) (degree 0 in n), absent without a direction; dd is produced from the bare reciprocal sum only through multiply_borns, which is bilinear in the Born charges", 5)
     rep.rule("R08e", "Gonze-Lee short-range force constants: the dynamical matrices, the dipole-dipole terms subtracted from them and the inverse transform all use the same representatives of the commensurate points (flow-sensitive labels on the point arrays)", 1)
     _r08e(rep)
+    _r08f(rep)
     tu = cast.load(DYN)
     ex = celem.ElemExec(tu, where=DYN)
     i, j, n = sp.symbols("i j num_patom", integer=True)
@@ -445,10 +446,49 @@ def run(rep: core.Report):
     _run_main(rep)
 
 
+def _r08f(rep):
+    """The damping of the Gonze-Lee reciprocal sum is derived from the radius the G list is built with."""
+    rep.rule("R08f", "Gonze-Lee parameters: the default Lambda makes the Gaussian factor 1e-10 at the edge of the list of reciprocal vectors, i.e. it is computed from the same cut-off radius that is handed to _get_G_list (value provenance through locals and attributes); computed from another radius (the default one while the user's smaller G_cutoff builds the list) the truncated sum is not periodic over G and the dipole term subtracted at one representative of a commensurate point differs from the one added at another", 1)
+    fn = core.find_def(PYDM, "DynamicalMatrixGL._set_nac_params")
+    asg = {}
+    for st in ast.walk(fn):
+        if isinstance(st, ast.Assign) and len(st.targets) == 1:
+            asg.setdefault(core.src(st.targets[0]), []).append(st.value)
+
+    def res(e, depth=0):
+        while depth < 8 and core.src(e) in asg and len(asg[core.src(e)]) == 1 and isinstance(asg[core.src(e)][0], (ast.Name, ast.Attribute)):
+            e = asg[core.src(e)][0]
+            depth += 1
+        return core.src(e)
+
+    glist = [c for c in ast.walk(fn) if isinstance(c, ast.Call) and core.src(c.func).endswith("_get_G_list") and c.args]
+    lam = [st for st in ast.walk(fn) if isinstance(st, ast.Assign) and core.src(st.targets[0]) == "self._Lambda" and not (isinstance(st.value, ast.Subscript) or (isinstance(st.value, ast.Call) and "nac_params" in core.src(st.value)))]
+    if len(glist) != 1 or len(lam) != 1:
+        raise AnalysisError(f"R08f: DynamicalMatrixGL._set_nac_params: {len(glist)} calls of _get_G_list, {len(lam)} default assignments of self._Lambda")
+    used = res(glist[0].args[0])
+    # radii the default Lambda depends on: names / attributes raised to the power 2 in the expression, through locals
+    radii = set()
+
+    def collect(e, depth=0):
+        for x in ast.walk(e):
+            if isinstance(x, ast.BinOp) and isinstance(x.op, ast.Pow) and isinstance(x.right, ast.Constant) and x.right.value == 2 and not isinstance(x.left, ast.Constant):
+                radii.add(res(x.left) if isinstance(x.left, (ast.Name, ast.Attribute)) else core.norm(core.src(x.left), 60))
+            if isinstance(x, ast.Name) and x.id in asg and depth < 5:
+                for v in asg[x.id]:
+                    collect(v, depth + 1)
+
+    collect(lam[0].value)
+    if not radii:
+        raise AnalysisError("R08f: the default Lambda no longer depends on a squared cut-off radius")
+    rep.instance("R08f", PYDM, "DynamicalMatrixGL._set_nac_params", f"default Lambda from {sorted(radii)}; G list built with {used}", radii == {used},
+                 f"the default Lambda is computed from {sorted(radii)} while the list of reciprocal vectors is built with '{used}': with a user-supplied G_cutoff and no Lambda the Gaussian factor at the edge of the list is not the intended 1e-10", line=lam[0].lineno)
+
+
 def selftest():
     V = []
     b = lambda name, file, old, new, rule, expect="", **kw: V.append(dict(name=name, kind="break", file=file, old=old, new=new, rule=rule, expect=expect, **kw))
     n = lambda name, file, old, new, **kw: V.append(dict(name=name, kind="neutral", file=file, old=old, new=new, **kw))
+    V.append(dict(name="default Lambda from the default radius", kind="break", rule="R08f", expect="_set_nac_params", file=PYDM, old="            exp_cutoff = 1e-10\n            GeG = self._G_cutoff**2 * np.trace(self._dielectric) / 3", new="            exp_cutoff = 1e-10\n            G_cutoff = (3 * self._num_G_points / (4 * np.pi) / self._pcell.volume) ** (1.0 / 3)\n            GeG = G_cutoff**2 * np.trace(self._dielectric) / 3"))
     b("zone-centre factor normalised by |n| instead of n.eps.n", DYN, "                nac_factor / n / get_dielectric_part(q_dir_cart, dielectric),", "                nac_factor / n / sqrt(get_dielectric_part(q_dir_cart, dielectric)),", "R08a", "degree 0")
     b("charge sum contracts the other Born axis", DYN, "                q_born[i][j] += q_cart[k] * born[i][k][j];", "                q_born[i][j] += q_cart[k] * born[i][j][k];", "R08a", "closed form")
     b("wang addend depends on the image", DYN, "                           charge_sum[i * num_patom + j][l][m]);", "                           charge_sum[i * num_patom + j][l][m] / (1 + k % 2));", "R08c", "get_dm")
